@@ -218,7 +218,10 @@ def import_from_sympy_latex(expr_string: str,
         terms.append(expr_string[term_start_idx:])  # append last term
         return terms
 
-    def import_term(term_string: str) -> list[str]:
+    def import_term(term_string: str, invert: bool = False) -> list[str]:
+        # invert: import the denominator of a fraction. The objects are
+        # inverted individually to avoid that a numeric prefactor is
+        # distributed: 1 / (8 * (a + b)) -> 1/8 * 1 / (a + b)
         from sympy import Mul
 
         stack: list[str] = []
@@ -235,13 +238,16 @@ def import_from_sympy_latex(expr_string: str,
             # in case we have a denom of the form:
             # 2a+2b+4c and not 2 * (a+b+2c)
             elif char in ['+', '-'] and not stack:
-                return import_from_sympy_latex(
+                imported = import_from_sympy_latex(
                     term_string, convert_default_names=convert_default_names
                 ).sympy
+                return Pow(imported, -1) if invert else imported
             elif char == " " and not stack and i != obj_start_idx:
                 objects.append(term_string[obj_start_idx:i])
                 obj_start_idx = i + 1
         objects.append(term_string[obj_start_idx:])  # last object
+        if invert:
+            return Mul(*(Pow(import_obj(o), -1) for o in objects))
         return Mul(*(import_obj(o) for o in objects))
 
     expr_string = expr_string.strip()
@@ -269,7 +275,7 @@ def import_from_sympy_latex(expr_string: str,
 
         sympy_term *= import_term(num)
         if denom is not None:
-            sympy_term /= import_term(denom)
+            sympy_term *= import_term(denom, invert=True)
         sympy_expr += sympy_term
     return Expr(sympy_expr)
 
